@@ -53,6 +53,7 @@ fn main() {
                 "C04" => props::c04::run(&cx),
                 "C05" => props::c05::run(&cx),
                 "C06" => props::c06::run(&cx),
+                "C07" => props::c07::run(&cx),
                 "C08" => props::c08::run(&cx),
                 "C09" => props::c09::run(&cx),
                 "C17" => props::c17::run(&cx),
